@@ -28,8 +28,9 @@ FLAVOURS = {
 class Walker(object):
 
     def __init__(self, rng, flavour="mixed", addrs=(0,), persistent=None, keepalive=None,
-                 level=None, maxwin=16, no_tick=False):
+                 level=None, maxwin=16, no_tick=False, stall=False):
         self.no_tick = no_tick
+        self.stall = stall
         self.rng = rng
         self.w8 = FLAVOURS[flavour]
         self.kinds = list(self.w8)
@@ -141,6 +142,8 @@ class Walker(object):
             if s is not None:
                 if self.no_tick and s[0] == "tick":
                     s = ("adv", 1.5)
+                if self.stall and s[0] in ("tick", "adv") and self.rng.random() < 0.25:
+                    w.step(("stall", self.rng.choice([0.3, 2.0, 7.0, 70.0, 400.0])))     # the reactor was blocked: timers fire late and bunched
                 w.step(s)
 
 
@@ -168,6 +171,7 @@ def random_cfg(rng, profile=None, model=None):
                re_pub_on_connmade=rng.random() < 0.1,
                re_echo=rng.random() < 0.1,
                re_connect_on_disc=rng.random() < 0.1,
-               re_disc_on=rng.choice([None] * 10 + ["ack", "suback", "onpublish", "connmade", "connected"]),
+               re_disc_on=rng.choice([None] * 10 + ["ack", "suback", "onpublish", "connmade", "connected", "fail"]),
                late=rng.choice([0.0] * 6 + [0.0078125, 0.25]),
-               re_on_refuse=rng.choice([None] * 6 + ["publish", "connect"]))
+               re_on_refuse=rng.choice([None] * 6 + ["publish", "connect"]),
+               re_chain=rng.random() < 0.15)
